@@ -320,7 +320,9 @@ class BatchWorld(World):
             total = sum(deltas[1:])
             ctx.judged += 1
             d = (deltas[0] - total).abs()
-            if bool((d > 2e-5 + 2e-4 * total.abs()).any()):
+            # every delta is a difference of float32 parameters: allow for their rounding (one ulp of the parameter per replica)
+            wmag = max(float(getattr(r[3], target).detach().abs().max()) for r in reps)
+            if bool((d > 2e-5 + 2e-4 * total.abs() + 2.5e-7 * wmag * (B + 1)).any()):
                 ctx.fail("batched_update_not_sum", facts, f"batched (sum-reduced) update {deltas[0].flatten()[:6].tolist()} != sum of per-sample updates {total.flatten()[:6].tolist()}")
             nz += int(bool((deltas[0] != 0).any()))
             # keep the single-sample replicas on the batched replica's parameters for the next step
